@@ -2,7 +2,8 @@
 //!
 //! world W :=  withMob combine scoring(0..3) sum sa(f64) ppm(f32) mobPct(f32) zLo zHi
 //!             [p h:seq…]                                          database peptides (index = PeptideIx)
-//!             [f (pep label q(f32) alignedRt(f32) calcmass(f32) charge file ims(f32))…]   PSM features, in order
+//!             x [f (pep label q(f32) alignedRt(f32) calcmass(f32) charge file ims(f32) expmass(f32) isotopeError(f32))…]   PSM features, in order
+//!               (older corpus lines: `[f (8 tokens)…]` without the `x` marker and without the last two fields)
 //!             [a (maxRt slope intercept)…]                        alignments (index = file id)
 //!             [s (file scanStart(f32) [k (mass intensity mobility)…])…]   MS1 spectra
 //! result R := [k (pep charge(0 = combined) decoy peakRt score(f64) angle(f64) [files area(f64)…])…] sorted by key | panic
@@ -56,6 +57,9 @@ struct Ft {
     charge: u8,
     file: usize,
     ims: f32,
+    /// `Feature::expmass` and `Feature::isotope_error`: NOT read by the unchanged `build_feature_map` (windows are centred on calcmass)
+    expmass: f32,
+    iso_err: f32,
 }
 
 #[derive(Clone, Debug)]
@@ -83,7 +87,27 @@ struct World {
 }
 
 fn put_feat(o: &mut Out, f: &Ft) {
-    o.n(f.pep).n(f.label).f32(f.q).f32(f.rt).f32(f.calcmass).n(f.charge).n(f.file).f32(f.ims);
+    o.n(f.pep).n(f.label).f32(f.q).f32(f.rt).f32(f.calcmass).n(f.charge).n(f.file).f32(f.ims).f32(f.expmass).f32(f.iso_err);
+}
+
+/// feature list: `x n (10 tokens)…` (with expmass and isotope_error) or, as in older corpus files, `n (8 tokens)…`
+fn get_feats(t: &mut Toks) -> Option<Vec<Ft>> {
+    let first = t.tok()?;
+    if first == "x" {
+        t.list(|t| {
+            let mut f = get_feat(t)?;
+            f.expmass = t.f32()?;
+            f.iso_err = t.f32()?;
+            Some(f)
+        })
+    } else {
+        let n: usize = first.parse().ok()?;
+        let mut v = Vec::with_capacity(n.min(1 << 20));
+        for _ in 0..n {
+            v.push(get_feat(t)?);
+        }
+        Some(v)
+    }
 }
 
 fn get_feat(t: &mut Toks) -> Option<Ft> {
@@ -96,6 +120,8 @@ fn get_feat(t: &mut Toks) -> Option<Ft> {
         charge: t.usize()? as u8,
         file: t.usize()?,
         ims: t.f32()?,
+        expmass: 0.0,
+        iso_err: 0.0,
     })
 }
 
@@ -107,7 +133,7 @@ impl World {
         for p in &self.peptides {
             o.bytes(p);
         }
-        o.n(self.feats.len());
+        o.raw("x").n(self.feats.len());
         for f in &self.feats {
             put_feat(o, f);
         }
@@ -135,7 +161,7 @@ impl World {
         let z_lo = t.usize()? as u8;
         let z_hi = t.usize()? as u8;
         let peptides = t.list(|t| t.bytes())?;
-        let feats = t.list(get_feat)?;
+        let feats = get_feats(t)?;
         let aligns = t.list(|t| Some((t.f32()?, t.f32()?, t.f32()?)))?;
         let spectra = t.list(|t| {
             let file = t.usize()?;
@@ -179,6 +205,8 @@ fn features(fs: &[Ft]) -> Vec<Feature> {
             x.charge = f.charge;
             x.file_id = f.file;
             x.ims = f.ims;
+            x.expmass = f.expmass;
+            x.isotope_error = f.iso_err;
             x
         })
         .collect()
@@ -303,7 +331,7 @@ pub fn exec(op: &str, t: &mut Toks) -> Option<String> {
             let mob = t.f32()?;
             let z_lo = t.usize()? as u8;
             let z_hi = t.usize()? as u8;
-            let fs = t.list(get_feat)?;
+            let fs = get_feats(t)?;
             let fm = pool(4).install(|| build_feature_map(settings(3, true, 0.7, ppm, mob, true), (z_lo, z_hi), &features(&fs)));
             o.n(fm.ranges.len());
             for r in &fm.ranges {
@@ -450,13 +478,23 @@ fn big_world(seed: u64, n_pep: usize) -> World {
         let rt = (2 + 3 * i) as f32 / 100.0f32;
         let base = (1000 + ((r >> 40) % 9000)) as f32;
         peptides.push(BIG_SEQS[((r >> 32) % 8) as usize].to_vec());
-        feats.push(Ft { pep: i as u32, label: 1, q: 0.0, rt, calcmass: calc, charge: 2, file: i % 2, ims: 1.0 });
+        // every third PSM was picked on the M+1 peak and measured 15 ppm high: the windows stay on calcmass
+        let shifted = (r >> 20) % 3 == 0;
+        let iso_err = if shifted { NEUTRON } else { 0.0 };
+        let expmass = if shifted { (calc + NEUTRON) + calc * 0.000015f32 } else { calc };
+        feats.push(Ft { pep: i as u32, label: 1, q: 0.0, rt, calcmass: calc, charge: 2, file: i % 2, ims: 1.0, expmass, iso_err });
         for k in 0..3usize {
             let t = rt + [-0.0008f32, 0.0, 0.0008][k];
             let wk = [0.5f32, 1.0, 0.5][k];
-            let peaks = (0..3usize)
+            let mut peaks: Vec<(f32, f32, f32)> = (0..3usize)
                 .map(|iso| ((calc + iso as f32 * NEUTRON) / 2.0f32, base * wk * [1.0f32, 0.75, 0.5][iso], 1.0f32))
                 .collect();
+            if shifted {
+                // noise 15 ppm away (tolerance 10 ppm), where windows centred on expmass - isotope_error would be
+                for iso in 0..3usize {
+                    peaks.push((((expmass - NEUTRON) + iso as f32 * NEUTRON) / 2.0f32, base * wk * 2.0f32, 1.0f32));
+                }
+            }
             spectra.push(Sp { file: i % 2, t, peaks });
         }
     }
@@ -574,15 +612,23 @@ fn world(rng: &mut Rng, cfg: &Cfg, force_files: Option<usize>, identity: bool) -
             } else {
                 rt
             };
+            let cm = if rng.chance(1, 8) { calcmass + 0.5 } else { calcmass };
+            // the MS2 precursor may have been picked on a C13 peak (isotope_error = k neutrons, k in -1..=3 as the
+            // `isotope_errors` setting allows) and its measured mass is off by up to +-30 ppm, independently of calcmass:
+            // none of that may move the LFQ windows, which belong to the peptide's theoretical isotopologue m/z (seeded C19-R)
+            let iso_err = if rng.chance(2, 5) { *rng.pick(&[NEUTRON, NEUTRON, 2.0 * NEUTRON, 3.0 * NEUTRON, -NEUTRON]) } else { 0.0 };
+            let expmass = cm + iso_err + cm * (60.0 * rng.unit() as f32 - 30.0) / 1.0e6;
             psms.push(Ft {
                 pep: p as u32,
                 label,
                 q,
                 rt,
-                calcmass: if rng.chance(1, 8) { calcmass + 0.5 } else { calcmass },
+                calcmass: cm,
                 charge: 2 + rng.below(2) as u8,
                 file,
                 ims: 0.6 + 0.8 * rng.unit() as f32,
+                expmass,
+                iso_err,
             });
         }
         // signal around every PSM of the peptide (so a wrong winner of first-wins changes the result)
@@ -619,6 +665,18 @@ fn world(rng: &mut Rng, cfg: &Cfg, force_files: Option<usize>, identity: bool) -
                                 / z as f32;
                             let mob = f.ims * (1.0 + mob_pct * 1.5 * (2.0 * rng.unit() as f32 - 1.0) / 100.0);
                             peaks.push((mz + mz * err / 1.0e6, inten, mob));
+                        }
+                    }
+                    if f.iso_err != 0.0 && rng.chance(1, 2) {
+                        // strong peaks where the windows would be if they were centred on the de-isotoped observed mass
+                        for z in z_lo..=z_hi {
+                            if z == 0 {
+                                continue;
+                            }
+                            for iso in 0..3usize {
+                                let mz = ((f.expmass - f.iso_err) + iso as f32 * NEUTRON) / z as f32;
+                                peaks.push((mz, 3.0 * scale * (0.05 + profile), f.ims));
+                            }
                         }
                     }
                     for _ in 0..rng.below(4) {
@@ -683,7 +741,7 @@ fn req_lfq2(kind: usize, perm: &[usize], bin: usize, a: &World, b: &World) -> St
 
 fn req_map(ppm: f32, mob: f32, z_lo: u8, z_hi: u8, fs: &[Ft]) -> String {
     let mut o = Out::new();
-    o.raw("lfqmap").f32(ppm).f32(mob).n(z_lo).n(z_hi).n(fs.len());
+    o.raw("lfqmap").f32(ppm).f32(mob).n(z_lo).n(z_hi).raw("x").n(fs.len());
     for f in fs {
         put_feat(&mut o, f);
     }
@@ -726,6 +784,8 @@ fn add_noise(rng: &mut Rng, a: &World) -> World {
             charge: 2,
             file: rng.below(a.aligns.len().max(1)),
             ims: 1.0,
+            expmass: 0.0,
+            iso_err: 0.0,
         };
         let at = if rng.chance(1, 2) { 0 } else { rng.below(b.feats.len() + 1) };
         b.feats.insert(at, f);
@@ -760,6 +820,30 @@ fn add_noise(rng: &mut Rng, a: &World) -> World {
                     // right mass, wrong mobility
                     let k = rng.below(b.spectra.len());
                     b.spectra[k].peaks.push((mz, 6.0e4, f.ims * (1.0 + 3.0 * a.mob_pct / 100.0)));
+                }
+            }
+        }
+    }
+    // peaks at the de-isotoped OBSERVED mass of the winning PSM (expmass - isotope_error), when that is clearly outside the
+    // ppm window around the theoretical m/z: in scans inside the RT window
+    for f in &win {
+        let off_ppm = ((f.expmass - f.iso_err) - f.calcmass).abs() / f.calcmass * 1.0e6;
+        if f.iso_err == 0.0 || off_ppm < 1.5 * a.ppm {
+            continue;
+        }
+        for k in 0..b.spectra.len() {
+            let al = a.aligns[b.spectra[k].file];
+            let rt = (b.spectra[k].t / al.0) * al.1 + al.2;
+            if (rt - f.rt).abs() > 0.004 || rng.chance(1, 3) {
+                continue;
+            }
+            for z in a.z_lo..=a.z_hi {
+                if z == 0 {
+                    continue;
+                }
+                for iso in 0..3usize {
+                    let mz = ((f.expmass - f.iso_err) + iso as f32 * NEUTRON) / z as f32;
+                    b.spectra[k].peaks.push((mz, 9.0e4, f.ims));
                 }
             }
         }
@@ -802,7 +886,7 @@ fn directed(emit: &mut dyn FnMut(Case)) {
         for &rt0 in &[0.5f32, 0.25, 0.004, 0.01, 0.0] {
             let calc = 1500.75f32;
             let seq = b"PEPTIDECMK".to_vec();
-            let feat = Ft { pep: 0, label: 1, q: 0.01, rt: rt0, calcmass: calc, charge: z, file: 0, ims: 1.0 };
+            let feat = Ft { pep: 0, label: 1, q: 0.01, rt: rt0, calcmass: calc, charge: z, file: 0, ims: 1.0, expmass: 0.0, iso_err: 0.0 };
             let mut spectra = Vec::new();
             let scan_rts = [
                 rt0,
@@ -885,7 +969,7 @@ fn directed(emit: &mut dyn FnMut(Case)) {
     for &(ppm, combine) in &[(5.0f32, true), (10.0, false)] {
         let calc = [1500.0f32, 1500.004];
         let feats: Vec<Ft> = (0..2)
-            .map(|p| Ft { pep: p as u32, label: 1, q: 0.0, rt: 0.4, calcmass: calc[p], charge: 2, file: 0, ims: 1.0 })
+            .map(|p| Ft { pep: p as u32, label: 1, q: 0.0, rt: 0.4, calcmass: calc[p], charge: 2, file: 0, ims: 1.0, expmass: 0.0, iso_err: 0.0 })
             .collect();
         let mut spectra = Vec::new();
         for k in 0..9 {
@@ -915,6 +999,48 @@ fn directed(emit: &mut dyn FnMut(Case)) {
         emit(Case::new(req_lfq(&[1], 0, &w)).tag("directed-isobaric-neighbours"));
         emit(Case::new(req_lfq(&[1], 3, &w)).tag("directed-isobaric-neighbours").tag("rebinned"));
     }
+    // the best PSM was triggered on the M+1 isotope peak (isotope_error = 1 neutron) and its measured precursor mass is 12 ppm
+    // off; the LFQ windows (5 ppm) belong to the theoretical isotopologue m/z all the same (seeded C19-R centred them on
+    // expmass - isotope_error): (a) strong peaks 12 ppm away are noise, (b) a world with ONLY such peaks reports nothing
+    for &iso_k in &[1.0f32, 2.0] {
+        let calc = 927.4549f32;
+        let iso_err = iso_k * NEUTRON;
+        let expmass = calc + iso_err + calc * 12.0 / 1.0e6;
+        let feat = Ft { pep: 0, label: 1, q: 0.0, rt: 0.5, calcmass: calc, charge: 2, file: 0, ims: 1.0, expmass, iso_err };
+        let env = [1.0f32, 0.45, 0.12];
+        let mut clean = Vec::new();
+        let mut noisy = Vec::new();
+        let mut only_noise = Vec::new();
+        for k in 0..9 {
+            let t = 0.5 + 0.0005 * (k as f32 - 4.0);
+            let w = 1.0e5 * (5.0 - (k as f32 - 4.0).abs());
+            let sig: Vec<(f32, f32, f32)> = (0..3usize).map(|i| ((calc + i as f32 * NEUTRON) / 2.0, env[i] * w, 1.0)).collect();
+            let off: Vec<(f32, f32, f32)> =
+                (0..3usize).map(|i| (((expmass - iso_err) + i as f32 * NEUTRON) / 2.0, 5.0 * env[i] * w, 1.0)).collect();
+            clean.push(Sp { file: 0, t, peaks: sig.clone() });
+            let mut both = sig.clone();
+            both.extend(off.iter().copied());
+            noisy.push(Sp { file: 0, t, peaks: both });
+            only_noise.push(Sp { file: 0, t, peaks: off });
+        }
+        let mk = |spectra: Vec<Sp>| World {
+            with_mob: false,
+            combine: true,
+            scoring: 3,
+            sum: true,
+            sa: 0.5,
+            ppm: 5.0,
+            mob_pct: 1.0,
+            z_lo: 2,
+            z_hi: 2,
+            peptides: vec![b"PEPTIDEK".to_vec()],
+            feats: vec![feat.clone()],
+            aligns: vec![(1.0, 1.0, 0.0)],
+            spectra,
+        };
+        emit(Case::new(req_lfq2(0, &[], 0, &mk(clean), &mk(noisy))).tag("directed-isotope-error").tag("noise"));
+        emit(Case::new(req_lfq(&[1], 0, &mk(only_noise))).tag("directed-isotope-error"));
+    }
     // degenerate worlds
     let empty = World {
         with_mob: false,
@@ -934,7 +1060,7 @@ fn directed(emit: &mut dyn FnMut(Case)) {
     emit(Case::new(req_lfq(&[1, 2], 0, &empty)).tag("empty").nontrivial(false));
     let mut e2 = empty.clone();
     e2.peptides = vec![b"PEPTIDEK".to_vec()];
-    e2.feats = vec![Ft { pep: 0, label: 1, q: 0.0, rt: 0.5, calcmass: 1000.0, charge: 2, file: 0, ims: 1.0 }];
+    e2.feats = vec![Ft { pep: 0, label: 1, q: 0.0, rt: 0.5, calcmass: 1000.0, charge: 2, file: 0, ims: 1.0, expmass: 0.0, iso_err: 0.0 }];
     e2.aligns = vec![(1.0, 1.0, 0.0)];
     emit(Case::new(req_lfq(&[1], 0, &e2)).tag("no-spectra").nontrivial(false));
     let mut e3 = e2.clone();
@@ -1099,7 +1225,7 @@ fn cliff_world(rng: &mut Rng, want_presence: bool) -> Option<(World, World)> {
                 z_lo: 2,
                 z_hi: 2,
                 peptides: vec![seq.clone()],
-                feats: vec![Ft { pep: 0, label: 1, q: 0.0, rt: ref_rt, calcmass: calc, charge: 2, file: 0, ims: 1.0 }],
+                feats: vec![Ft { pep: 0, label: 1, q: 0.0, rt: ref_rt, calcmass: calc, charge: 2, file: 0, ims: 1.0, expmass: 0.0, iso_err: 0.0 }],
                 aligns: vec![(1.0, 1.0, 0.0)],
                 spectra: mk(&orders[i0]),
             };
@@ -1209,6 +1335,8 @@ pub fn gen(rng: &mut Rng, tier: Tier, emit: &mut dyn FnMut(Case)) {
                 charge: 2,
                 file: 0,
                 ims: 1.0,
+                expmass: 0.0,
+                iso_err: 0.0,
             })
             .collect();
         emit(Case::new(req_map(10.0, 1.0, 2, 4, &fs)).tag("map").tag("map-multipage"));
